@@ -27,7 +27,7 @@ func init() {
 			{ID: "C17-R1", Title: "run-time fields and wire fields survive the round trip", Floor: 30, Run: c17r1},
 			{ID: "C17-R2", Title: "constant type tables agree (compiler, marshal, unmarshal, VM)", Floor: 12, Run: c17r2},
 			{ID: "C17-R4", Title: "symbol-table id lookups respect the separator", Floor: 1, Run: c17r4},
-			{ID: "C17-R5", Title: "the loader links functions and code objects by id", Floor: 2, Run: c17r5},
+			{ID: "C17-R5", Title: "the loader links functions and code objects by id", Floor: 1, Run: c17r5},
 			{ID: "C17-R6", Title: "the compiler package keeps no state between loads (shared with C05-R4)", Floor: 3, Run: c05r4},
 			{ID: "C17-R7", Title: "marshalled bytes are not storage of a pooled object", Floor: 1, Run: func(c *core.Ctx) { pooledResult(c) }},
 			{ID: "C17-R8", Title: "Code.Root returns a parentless code object (shared with C18-R7)", Floor: 1, Run: rootHasNoParent},
@@ -42,9 +42,9 @@ func init() {
 			{ID: "C17-R17", Title: "scalars of a loaded code object come from its own definition", Floor: 3, Run: loadedScalarsComeFromTheirOwnDefinition},
 			{ID: "C17-R18", Title: "the loader does not single out names", Floor: 1, Run: theLoaderDoesNotSingleOutNames},
 			{ID: "C17-R19", Title: "numbering continues where the code handed in left off", Floor: 1, Run: numberingContinuesWhereTheCodeLeftOff},
-			{ID: "C17-R20", Title: "the marshaller refuses what the loader cannot read", Floor: 2, Run: theMarshallerRefusesWhatTheLoaderCannotRead},
+			{ID: "C17-R20", Title: "the marshaller refuses what the loader cannot read", Floor: 1, Run: theMarshallerRefusesWhatTheLoaderCannotRead},
 			{ID: "C17-R21", Title: "the loader limits what the compiler limits", Floor: 1, Run: theLoaderLimitsWhatTheCompilerLimits},
-			{ID: "C17-R22", Title: "the writers of the stored form agree", Floor: 2, Run: theWritersOfTheStoredFormAgree},
+			{ID: "C17-R22", Title: "the writers of the stored form agree", Floor: 1, Run: theWritersOfTheStoredFormAgree},
 		},
 	})
 }
